@@ -374,6 +374,8 @@ def rule_R3_both(ctx, prj):
         res = headers_evaluated(prj)
         decided = True
         for with_follow, got, want in res:
+            if with_follow == "long":
+                continue        # the long follow-up is C14's clause (where the follow-up is matched from), not the name's
             what = "with the follow-up `{`" if with_follow else "without follow-up"
             if got != want:
                 decided = False
